@@ -1,0 +1,25 @@
+//go:build verif
+
+package wkt
+
+// VerifHook, when set, receives one event per lexed token and per layout-stack validator
+// (verification instrumentation; compiled only with the "verif" build tag).
+var VerifHook func(ev string, arg string, ok bool, stack []VerifFrame)
+
+// VerifFrame is the exported projection of one layout stack frame.
+type VerifFrame struct {
+	Layout int
+	Base   bool
+	MBE    bool
+}
+
+func verifEmit(l *wktLex, ev, arg string, ok bool) {
+	if VerifHook == nil {
+		return
+	}
+	fr := make([]VerifFrame, len(l.lytStack.data))
+	for i, f := range l.lytStack.data {
+		fr[i] = VerifFrame{Layout: int(f.layout), Base: f.inBaseTypeCollection, MBE: f.nextPointMustBeEmpty}
+	}
+	VerifHook(ev, arg, ok, fr)
+}
